@@ -8,7 +8,73 @@ TB = ("Trusted: Coq 8.16.1 kernel and vm_compute (no native_compute; no axioms: 
       "OCaml 4.13.1; the Rust harness (runner, shim allocator/shadow heap, monitors); rustc/cargo. The hand-written model "
       "(coq/theories/Impl.v, Exec.v) is tied to the code by differential execution on the same histories, not by proof. 64-bit little-endian only.")
 
+COMMON = (" Tie to the code (checked every run): tools/translate.py regenerates coq/gen/GenSrc.v (branch conditions, growth formula, limits, "
+          "atomic orderings, LastByte table, digit tables) from /repo and the whole development is re-checked against it; the hand-written "
+          "model (coq/theories/Impl.v, Exec.v) is extracted and run on the same operation histories as the real crate (corpus + generated, "
+          "seeded by VERIF_SEED) and must agree on this property's projection of the trace; the property's monitors (the predicate itself, "
+          "evaluated on the real run against std::string::String and a shadow heap) must stay silent.")
+
+def T(main): return main + COMMON
+
 CLAIMED = {
+    'C01': dict(text=T("Theorems (Coq, all histories / arguments / allocator oracles): C01_step — every one of the 27 modelled operations (constructors, "
+        "clone/clone_from/drop, push, push_str, +=, +, pop, remove, insert, insert_str, truncate, clear, retain, reserve, shrink_to, extend, collect, "
+        "write!, to_lean_string on a Display type) preserves the pool/heap invariant WF, never reaches an undefined memory state, leaves every other "
+        "slot untouched, and - unless it reports an allocation failure - leaves exactly the texts and returns exactly the value that Spec.v (String as "
+        "a function on byte lists) does; C01_histories lifts this by induction to every finite history over an unbounded pool from the empty world; "
+        "C01_read: len/is_empty/as_bytes read the abstract text in every storage state incl. the 16-byte inline case, and every text is valid UTF-8."),
+        note=TB + " Spec.v is a rendering of String validated by the harness (real Strings run next to the LeanStrings), not proved. core::fmt plumbing is modelled as 'calls write_str with the pieces in order'.",
+        technique="Coq: wp specifications per Rust function + refinement to a String spec, induction over operation lists; differential run vs extracted model and vs std String",
+        design='§7 C01'),
+    'C02': dict(text=T("Theorems: C02_frame — for every operation and EVERY outcome (success, ReserveError, index panic, callback panic) each slot that is not the "
+        "target keeps its handle bit for bit, reads the same text and reports the same capacity (derived from the frame clause of every function "
+        "specification: buffers still named by another handle are never written, moved or freed); C02_histories — a slot's text changes only at steps "
+        "that target it, for all histories."),
+        note=TB, technique="Coq: frame condition in every function's wp specification, induction over histories; differential run + monitors on non-target slots", design='§7 C02'),
+    'C03': dict(text=T("Theorems: C03_no_ub — no history reaches an undefined state of the memory model (access to a released/unknown buffer, out-of-bounds access, "
+        "dealloc/realloc with a size other than the allocation's, double free, write through a static pointer, an unreachable_unchecked site); C03_count — in "
+        "every reachable world a live buffer's count equals the number of handles naming it (>= 1) and its allocation size is header + capacity, a released "
+        "buffer is named by nobody; C03_handles_live; C03_no_leak — when all handles are gone no block is live."),
+        note=TB + " The real allocator is represented by an oracle that may refuse any request; the shadow heap in the harness (guard zones, poison, quarantine, always-moving realloc) is the runtime counterpart.",
+        technique="Coq: invariant (refcount = number of handles) preserved by every operation; shadow-heap monitors on the real crate", design='§7 C03'),
+    'C05': dict(text=T("Theorems, for every allocator oracle (so for every single, paired or longer fault sequence): C05_failure_changes_nothing — when push, push_str, "
+        "insert, insert_str, remove, retain, reserve or shrink_to reports a ReserveError (try form) or panics with it (plain form) the pool and the heap are "
+        "exactly as before; C05_iterators_stop_between_items — extend / write! stop after some prefix of the items; C05_ctor_failure_leaves_nothing — a failed "
+        "constructor (incl. collect and to_lean_string on a Display type) appends nothing and leaves no buffer unaccounted; C05_every_step_stays_usable."),
+        note=TB, technique="Coq: failure clauses of the wp specifications, universally quantified allocator oracle; fault-injecting shim allocator in the harness", design='§7 C05'),
+    'C06': dict(text=T("Theorems for every n (a universal over N, the 2^64 wrap written out): C06_with_capacity_any_n, C06_reserve_any_n, C06_shrink_any_n give the documented "
+        "postcondition on success and 'nothing changed' on failure, never UB; C06_growth_covers_request and C06_layout_size_no_wrap are the arithmetic facts "
+        "(an accepted capacity covers len+additional; header+capacity cannot wrap below 2^56)."),
+        note=TB + " Static texts >= 2^56 bytes cannot be built by the harness.", technique="Coq: arithmetic over N with explicit saturation/wrap + wp specifications; boundary-grid differential run", design='§7 C06'),
+    'C07': dict(text=T("Theorems: C07_index_panic_iff_string — insert, insert_str, remove, truncate panic on the index exactly when Spec (String) does; "
+        "C07_index_panic_changes_nothing — such a panic leaves pool, heap, allocator request counter and statics exactly as they were, in every storage state; "
+        "C07_always_utf8 — every text of every reachable world is valid UTF-8 (table 3-7), which is what from_utf8_unchecked relies on."),
+        note=TB, technique="Coq: panic clauses of the wp specifications, UTF-8 validity as an invariant; differential run with catch_unwind on both sides", design='§7 C07'),
+    'C08': dict(text=T("Theorems: C08_clone_is_shallow — clone appends the very same handle value, issues no allocator request, changes no buffer data (only the count of the "
+        "shared buffer, by one) and both read the same text; C08_clone_from_is_shallow likewise; equality/independence afterwards are C01/C02/C03."),
+        note=TB, technique="Coq: explicit post-state of make_shallow_clone; allocation counter and as_ptr monitors", design='§7 C08'),
+    'C09': dict(text=T("Theorems: C09_from_str_allocation / C09_from_int_allocation — a text of at most 16 bytes yields a non-heap handle with no allocator request, a longer one "
+        "exactly one request and capacity = length (or a reported failure); C09_push_within_capacity / C09_insert_within_capacity — an edit of an inline "
+        "string that stays within 16 bytes performs no request and stays inline. The tag arithmetic of the full-inline case is in InlineFacts.v over the generated expressions."),
+        note=TB, technique="Coq: allocator-request counter in the wp specifications; allocation-count monitors", design='§7 C09'),
+    'C10': dict(text=T("Theorems: C10_from_static (no request; handle is Static s len for len > 16), C10_pop/truncate/clear_keeps_static (same static id, no request, heap unchanged), "
+        "C10_first_write_moves_away (a non-empty push yields a non-static handle with Spec's text), C10_statics_never_change (no history changes a static text; a write "
+        "through a static pointer is an undefined state no history reaches)."),
+        note=TB, technique="Coq: handle-shape clauses of the wp specifications; leaked writable 'static buffers compared with pristine copies", design='§7 C10'),
+    'C11': dict(text=T("Theorems: C11_capacity_ge_len (all reachable handles), C11_with_capacity (cap >= n), C11_reserve (cap >= len+n and exclusive), C11_push/insert_within_capacity "
+        "(an append/insert that fits the reported capacity of an exclusively owned string issues no allocator request and keeps the same buffer)."),
+        note=TB, technique="Coq: capacity clauses of the wp specifications; capacity/as_ptr/allocation monitors", design='§7 C11'),
+    'C12': dict(text=T("Theorems: C12_push_growth_is_amortized_growth / C12_reserve_growth_... — whenever an append or reserve issues an allocator request the new capacity is exactly "
+        "amortized_growth(len, additional) as translated from heap_buffer.rs on this run; C12_growth_bounds — that value is >= len + len/2, >= len + additional and <= their maximum; "
+        "C12_growth_formula. The O(log n) push-loop bound is not stated as a theorem (see DESIGN)."),
+        note=TB + " Wall-clock cost is not addressed.", technique="Coq: arithmetic over the regenerated growth formula + wp specifications; growth monitors", design='§7 C12'),
+    'C13': dict(text=T("Theorem C13_shrink: shrink_to/shrink_to_fit change no text, never fail to keep len <= capacity <= max(old, 16), convert to inline when max(len, m) <= 16, do nothing "
+        "when the capacity is already <= max(len, m), and otherwise land exactly on max(len, m) with an exclusively owned buffer - shared or not (shrink_post)."),
+        note=TB, technique="Coq: wp specification of shrink_to (all four paths); shrink monitors", design='§7 C13'),
+    'C18': dict(text=T("Theorems: C18_retain_panic_state — after a panicking retain predicate the target holds exactly what String's SetLenOnDrop leaves; C18_ctor_panic_no_garbage — a "
+        "panicking iterator / Display impl in collect / to_lean_string leaves an empty slot and a heap in which every live buffer is named by a slot (so C03_no_leak applies); "
+        "extend / write! panics are covered by C01_step's refinement clause; C18_every_step_stays_usable."),
+        note=TB, technique="Coq: callback modelled by its answer to the k-th call, for every k; catch_unwind + leak monitors", design='§7 C18'),
     'C14': dict(
         text=("Theorem (Coq, all inputs): for each of the 10 integer types of at most 64 bits (and hence their NonZero forms) and EVERY value z of "
               "the type, the model of the digit-count table + unrolled LUT writer returns exactly the decimal text of z, the table entry equals "
